@@ -27,6 +27,12 @@ import (
 //verif:stub os.Lstat vLstat
 //verif:stub os.Mkdir vMkdir
 //verif:stub os.Link vLink
+//verif:stub os.OpenFile vOpenFile
+//verif:stub os.Create vCreate
+//verif:stub (*os.File).Close vFileClose
+//verif:stub (*os.File).Write vFileWrite
+//verif:stub (*os.File).WriteString vFileWriteString
+//verif:stub (*os.File).Sync vFileSync
 
 // ---- a model of a POSIX directory tree ---------------------------------------------------------------------------
 
@@ -117,8 +123,28 @@ func vRename(oldpath, newpath string) error {
 	if n, ok := fs.nodes[newpath]; ok && n.kind == 1 && o.kind != 1 {
 		return os.ErrExist
 	}
+	if n, ok := fs.nodes[newpath]; ok && n.kind == 1 {
+		for p := range fs.nodes {
+			if len(p) > len(newpath) && p[:len(newpath)+1] == newpath+"/" {
+				return os.ErrExist // rename over a non-empty directory
+			}
+		}
+	}
 	fs.nodes[newpath] = o // atomic replacement
 	delete(fs.nodes, oldpath)
+	if o.kind == 1 {
+		// a directory moves with everything below it
+		var below []string
+		for p := range fs.nodes {
+			if len(p) > len(oldpath) && p[:len(oldpath)+1] == oldpath+"/" {
+				below = append(below, p)
+			}
+		}
+		for _, p := range below {
+			fs.nodes[newpath+p[len(oldpath):]] = fs.nodes[p]
+			delete(fs.nodes, p)
+		}
+	}
 	vInvariant()
 	return nil
 }
@@ -261,6 +287,67 @@ func vLstat(name string) (os.FileInfo, error) {
 	}
 	return vInfo{name: filepath.Base(name), kind: n.kind, size: int64(len(n.content))}, nil
 }
+
+// open files: handle -> path (only what a writer of small files needs: create, write, sync, close)
+var vOpen = map[*os.File]string{}
+
+func vOpenFile(name string, flag int, perm os.FileMode) (*os.File, error) {
+	n, exists := fs.nodes[name]
+	if exists && flag&os.O_EXCL != 0 && flag&os.O_CREATE != 0 {
+		return nil, os.ErrExist
+	}
+	if exists && n.kind == 1 {
+		return nil, os.ErrInvalid
+	}
+	if !exists {
+		if flag&os.O_CREATE == 0 {
+			return nil, os.ErrNotExist
+		}
+		fs.before() // creating the file changes the tree
+		if !vParentIsDir(name) {
+			return nil, os.ErrNotExist
+		}
+		fs.nodes[name] = &vNode{kind: 2}
+		vInvariant()
+	} else if flag&os.O_TRUNC != 0 {
+		fs.before()
+		fs.nodes[name] = &vNode{kind: 2}
+		vInvariant()
+	}
+	f := new(os.File)
+	vOpen[f] = name
+	return f, nil
+}
+
+func vCreate(name string) (*os.File, error) {
+	return vOpenFile(name, os.O_RDWR|os.O_CREATE|os.O_TRUNC, 0o666)
+}
+
+func vFileClose(f *os.File) error {
+	if _, ok := vOpen[f]; !ok {
+		return os.ErrClosed
+	}
+	delete(vOpen, f)
+	return nil
+}
+
+func vFileWrite(f *os.File, p []byte) (int, error) {
+	name, ok := vOpen[f]
+	if !ok {
+		return 0, os.ErrClosed
+	}
+	fs.before()
+	n, exists := fs.nodes[name]
+	if !exists {
+		return 0, os.ErrNotExist
+	}
+	fs.nodes[name] = &vNode{kind: 2, content: append(append([]byte{}, n.content...), p...)}
+	vInvariant()
+	return len(p), nil
+}
+
+func vFileWriteString(f *os.File, s string) (int, error) { return vFileWrite(f, []byte(s)) }
+func vFileSync(f *os.File) error                           { return nil }
 
 func vLink(oldname, newname string) error {
 	fs.before()
